@@ -94,6 +94,9 @@ pub fn scenarios() -> Vec<(&'static str, fn() -> Option<String>)> {
         ("lock-file-is-not-client-addressable (C03, H14)", sc_lock_file_addressable),
         ("committed-content-is-the-streamed-content (C10)", sc_content_shapes),
         ("hostile-cbor-under-a-memory-limit (C12)", sc_hostile_cbor),
+        ("one-file-two-spellings (C03)", sc_two_spellings),
+        ("root-spellings-stay-inside (C11)", sc_root_spellings),
+        ("long-non-ascii-names (C12)", sc_long_names),
     ]
 }
 
@@ -286,6 +289,61 @@ fn sc_get_consistent() -> Option<String> {
     res
 }
 
+fn sc_two_spellings() -> Option<String> {
+    // `doc` and `./doc` are one file. S1 is delayed (strace) right before its rename, i.e. INSIDE its critical section; S2
+    // then writes the same file under the other spelling with the same `expected`. Mutual exclusion must cover the FILE.
+    let r = root("spell"); std::fs::write(r.join("doc"), b"X").ok()?;
+    let b = std::env::var("COPIA_BIN").ok()?;
+    let dbg = std::env::var("COPIA_VERIF_DEBUG").is_ok();
+    let mut c = Command::new("strace").args(["-f", "-qq", "-tt", "-o", if dbg { "/tmp/s1.trace" } else { "/dev/null" }, "-e", if dbg { "trace=rename,renameat,renameat2,flock,openat,unlink" } else { "trace=rename,renameat,renameat2" }, "-e", "inject=rename,renameat,renameat2:delay_enter=1500000:when=1"])
+        .arg(&b).arg("serve").arg(&r).stdin(Stdio::piped()).stdout(Stdio::piped()).stderr(Stdio::null()).spawn().ok()?;
+    let mut s1 = Srv { w: c.stdin.take()?, r: BufReader::new(c.stdout.take()?), child: c };
+    s1.magic();
+    s1.send(&Request::Put { path: "doc".into(), expected: Some(h(b"X")), len: 3, hash: h(b"ONE") }); s1.raw(b"ONE");
+    std::thread::sleep(Duration::from_millis(600));
+    let mut s2 = if dbg { let mut c2 = Command::new("strace").args(["-f", "-qq", "-tt", "-o", "/tmp/s2.trace", "-e", "trace=rename,renameat,renameat2,flock,openat,unlink"]).arg(&b).arg("serve").arg(&r).stdin(Stdio::piped()).stdout(Stdio::piped()).stderr(Stdio::null()).spawn().ok()?; Srv { w: c2.stdin.take()?, r: BufReader::new(c2.stdout.take()?), child: c2 } } else { Srv::start(&r)? }; s2.magic();
+    let sp = std::env::var("COPIA_VERIF_SPELL").unwrap_or("./doc".into());
+    let r2 = s2.put(&sp, Some(h(b"X")), b"TWO");
+    if std::env::var("COPIA_VERIF_DEBUG").is_ok() { eprintln!("debug two-spellings: r2 = {r2:?}"); }
+    let r1 = s1.recv(10);
+    if std::env::var("COPIA_VERIF_DEBUG").is_ok() { eprintln!("debug two-spellings: r1 = {r1:?}; files {:?}", live_files(&r).iter().map(|(p, b)| (p.clone(), String::from_utf8_lossy(b).into_owned())).collect::<Vec<_>>()); }
+    let _ = s1.close_and_wait(5); let _ = s2.close_and_wait(5);
+    let n = [&r1, &r2].iter().filter(|x| matches!(x, Some(Response::PutResult { committed: true, .. }))).count();
+    if n == 2 { return Some(format!("Put(doc, expected = hash of X) and Put(./doc, expected = hash of X) - one file, two spellings - were BOTH acknowledged committed:true; live = {:?}: an acknowledged write was lost (C03)", std::fs::read(r.join("doc")).ok().map(|b| String::from_utf8_lossy(&b).into_owned()))); }
+    None
+}
+fn sc_root_spellings() -> Option<String> {
+    // request paths that normalise to the served directory itself: whatever the reply, nothing may appear OUTSIDE the root,
+    // not even for the time a body is in flight
+    let base = root("rootsp"); let hub = base.join("hub"); std::fs::create_dir_all(&hub).ok()?; std::fs::write(hub.join("inside.txt"), b"in").ok()?;
+    let outside = |b: &Path| -> Vec<String> { std::fs::read_dir(b).map(|rd| rd.flatten().map(|e| e.file_name().to_string_lossy().into_owned()).filter(|n| n != "hub").collect()).unwrap_or_default() };
+    let mut s = Srv::start(&hub)?; s.magic();
+    for p in ["", ".", "./", ".//.", "plain.bin"] {
+        s.send(&Request::Put { path: p.into(), expected: None, len: 10, hash: h(b"0123456789") }); s.raw(b"01234");
+        std::thread::sleep(Duration::from_millis(150));
+        let o = outside(&base);
+        if !o.is_empty() { let _ = s.child.kill(); return Some(format!("while the body of Put(path = {p:?}) was in flight, {o:?} appeared NEXT TO the served directory, outside it (C11)")); }
+        s.raw(b"56789");
+        if s.recv(10).is_none() { return Some(format!("Put(path = {p:?}) got no reply: the connection is not usable any more (C11)")); }
+        let o = outside(&base);
+        if !o.is_empty() { return Some(format!("after Put(path = {p:?}), {o:?} exists outside the served directory (C11)")); }
+    }
+    if s.get("inside.txt").map(|x| x.2) != Some(b"in".to_vec()) { return Some("after Puts on spellings of the root, a following Get does not get its normal reply (C11)".into()); }
+    let _ = s.close_and_wait(5);
+    None
+}
+fn sc_long_names() -> Option<String> {
+    // well-formed Puts whose last path component is long and not ASCII: answered (commit or error reply), never a dead server
+    let r = root("longn"); let mut s = Srv::start(&r)?; s.magic();
+    let names: Vec<String> = vec![format!("r{}", "\u{e9}".repeat(105)), "\u{6587}".repeat(70), "\u{e9}".repeat(105), format!("d/{}", "\u{1f600}".repeat(55)), "a".repeat(230)];
+    for n in &names {
+        let resp = s.put(n, None, b"payload");
+        if resp.is_none() { let code = s.child.try_wait().ok().flatten().map(|st| format!("{st}")).unwrap_or("still running, silent".into()); return Some(format!("a well-formed Put with a {}-byte non-ASCII file name got no reply; server: {code} (C12)", n.len())); }
+    }
+    if s.get(&names[0]).is_none() && !matches!(s.put("after", None, b"x"), Some(Response::PutResult { .. })) { return Some("after long-name Puts the session is out of step (C12)".into()); }
+    let _ = s.close_and_wait(5);
+    None
+}
 fn sc_hostile_cbor() -> Option<String> {
     // well-framed (<= 1 MiB) control frames whose CBOR declares huge lengths or nests deeply, to a server with a 512 MiB
     // address-space limit: it must answer or exit with an error - never be killed, abort, panic or hang
